@@ -35,6 +35,7 @@ import (
 	"github.com/kardiachain/go-kardia/kai/kaidb/memorydb"
 	"github.com/kardiachain/go-kardia/kai/state"
 	"github.com/kardiachain/go-kardia/lib/common"
+	"github.com/kardiachain/go-kardia/lib/crypto"
 )
 
 var (
@@ -222,7 +223,16 @@ type c10Case struct {
 	kind     string
 	// oracle-only family: expected return data by the EVM specification; the model comparison is skipped
 	specRet   []byte
+	specName  string // oracle class reported when specRet is not met (default: kvm-identity-returndata-aliased)
+	specWhat  string
 	skipModel string
+	extra     []c10Acct // further pre-state accounts of a boundary family
+	// exact-gas family: the program was first run with ample gas and used exactly `exactUsed`; the case proper
+	// is given exactUsed+exactDelta and must end the same way with exactDelta left (or out of gas when < 0)
+	exactOn    bool
+	exactDelta int64
+	exactClass string
+	exactRet   []byte
 }
 
 const c10ChainID = 1337
@@ -250,6 +260,7 @@ type c10Result struct {
 	gasCreated    string // a callee was handed more gas than the CALL asked for (+ stipend)
 	gasTaint      bool
 	foreignOp     bool // executed an opcode the other VM does not define the same way
+	gethAlias     bool // read RETURNDATA of an identity call after the caller's memory changed: go-ethereum v1.9.15 itself aliases there
 	steps         int
 	maxDepth      int
 	ops           map[byte]int
@@ -338,6 +349,12 @@ type c10Tracer struct {
 	deadline time.Time // KVM.Cancel is only polled every 1000 steps of ONE frame: call-heavy runs never see it
 	reqGas  *big.Int // gas argument of the CALL-family opcode being executed
 	reqVal  bool     // ... which transfers value (callee also gets the stipend)
+	// RETURNDATA of the frame at this depth is the output of the identity precompile (idPending) and the
+	// frame's memory was written since (idDirty): the arbiter (go-ethereum v1.9.15, dataCopy.Run returns its
+	// input slice uncopied; fixed upstream in v1.9.17 and in /repo by 8287a54) may read something else there
+	idPending, idDirty map[int]bool
+	curDepth           int
+	reqRetSize         bool // the CALL-family opcode being executed has a non-empty output range
 }
 
 func c10IsPrecompileAddr(a common.Address) bool {
@@ -388,11 +405,31 @@ func (t *c10Tracer) CaptureState(pc uint64, op OpCode, gas, cost uint64, scope *
 	}
 	st := scope.Stack
 	t.reqGas = nil
+	t.curDepth = depth
+	if t.idPending[depth] {
+		switch op {
+		case RETURNDATACOPY:
+			if t.idDirty[depth] {
+				t.res.gethAlias = true
+			}
+			t.idDirty[depth] = true
+		case MSTORE, MSTORE8, CALLDATACOPY, CODECOPY, EXTCODECOPY:
+			t.idDirty[depth] = true
+		case CALL, CALLCODE, DELEGATECALL, STATICCALL, CREATE, CREATE2:
+			t.idPending[depth], t.idDirty[depth] = false, false
+		}
+	}
 	switch op {
 	case CALL, CALLCODE, DELEGATECALL, STATICCALL:
 		if st.len() >= 3 {
 			t.reqGas = st.Back(0).ToBig()
 			t.reqVal = (op == CALL || op == CALLCODE) && !st.Back(2).IsZero()
+		}
+		t.reqRetSize = true
+		if (op == CALL || op == CALLCODE) && st.len() >= 7 {
+			t.reqRetSize = !st.Back(6).IsZero()
+		} else if (op == DELEGATECALL || op == STATICCALL) && st.len() >= 6 {
+			t.reqRetSize = !st.Back(5).IsZero()
 		}
 	}
 	if t.lastGas[depth] {
@@ -437,6 +474,12 @@ func (t *c10Tracer) CaptureEnter(typ OpCode, from common.Address, to common.Addr
 	}
 	if typ != CREATE && typ != CREATE2 && to == common.BytesToAddress([]byte{4}) {
 		t.res.sawIdentity = true
+		if len(input) > 0 {
+			t.idPending[t.curDepth], t.idDirty[t.curDepth] = true, t.reqRetSize
+		}
+	} else {
+		// a new frame starts one level below: whatever was recorded for an earlier frame there is gone
+		t.idPending[t.curDepth+1], t.idDirty[t.curDepth+1] = false, false
 	}
 }
 func (t *c10Tracer) CaptureExit(output []byte, gasUsed uint64, err error) {
@@ -499,7 +542,8 @@ func c10AcctLine(addr []byte, nonce uint64, bal *big.Int, code []byte, kv [][2]s
 func c10RunKVM(c *c10Case, withTracer bool, cands map[common.Address]bool, keys map[common.Address]map[common.Hash]bool) (res *c10Result, oc map[common.Address]bool, ok map[common.Address]map[common.Hash]bool) {
 	res = &c10Result{ops: map[byte]int{}, errs: map[string]int{}}
 	sdb, _ := state.New(common.Hash{}, state.NewDatabase(memorydb.New()), nil)
-	tr := &c10Tracer{res: res, cands: map[common.Address]bool{}, keys: map[common.Address]map[common.Hash]bool{}, lastGas: map[int]bool{}}
+	tr := &c10Tracer{res: res, cands: map[common.Address]bool{}, keys: map[common.Address]map[common.Hash]bool{}, lastGas: map[int]bool{},
+		idPending: map[int]bool{}, idDirty: map[int]bool{}}
 	for _, a := range c.accts {
 		sdb.CreateAccount(a.addr)
 		sdb.SetNonce(a.addr, a.nonce)
@@ -899,6 +943,7 @@ type c10Gen struct {
 	self    common.Address
 	depth   int
 	o       *c10Out
+	noCalls bool // no CALL-family / CREATE / GAS (the outcome must not depend on the gas supplied, except running out)
 }
 
 // small-ish operand for shifts / byte / signextend
@@ -1056,6 +1101,9 @@ func (g *c10Gen) stmt(a *c10Asm, d int) {
 	if d <= 0 && (k == 4 || k == 5 || k == 2 || k == 3) {
 		k = 0
 	}
+	if g.noCalls && (k == 4 || k == 5 || k == 8) {
+		k = 0
+	}
 	switch k {
 	case 0: // expression -> sink
 		g.expr(a, 1+r.Intn(3))
@@ -1162,10 +1210,11 @@ func (g *c10Gen) call(a *c10Asm) {
 	}
 }
 
-// identity precompile 0x04: copy a memory range through it and read the result back at once; a
-// following call to an absent account resets RETURNDATA (KVM's identity returns its input slice
-// uncopied, so RETURNDATA would alias the caller's memory from here on — family
-// boundary:identity-returndata checks that directly)
+// identity precompile 0x04: copy a memory range through it and read the result back at once. Half of
+// the time a following call to an absent account resets RETURNDATA; otherwise it stays live while the
+// rest of the program writes memory (RETURNDATA must be a copy: model comparison; the arbiter is skipped
+// when such a run reads it again, see c10Tracer.idDirty; family boundary:identity-returndata checks
+// the copy semantics with a direct oracle)
 func (g *c10Gen) identity(a *c10Asm) {
 	r := g.r
 	inSize := uint64(r.Intn(70))
@@ -1183,8 +1232,10 @@ func (g *c10Gen) identity(a *c10Asm) {
 	}
 	a.op(kind)
 	a.op(RETURNDATASIZE).push(0).push(uint64(r.Intn(200))).op(RETURNDATACOPY)
-	// reset RETURNDATA before anything else touches memory
-	a.push(0).push(0).push(0).push(0).push(0).pushAddr(common.BytesToAddress([]byte{0xde, 0xad, 0x09})).push(0).op(CALL, POP)
+	if r.Chance(1, 2) {
+		// reset RETURNDATA before anything else touches memory
+		a.push(0).push(0).push(0).push(0).push(0).pushAddr(common.BytesToAddress([]byte{0xde, 0xad, 0x09})).push(0).op(CALL, POP)
+	}
 	g.sink(a) // the success flag of the identity call
 }
 
@@ -1322,7 +1373,8 @@ func c10Weighted(r *c10Rand, v2 bool) []byte {
 func c10Boundary(r *c10Rand, c *c10Case, self, other common.Address) (code []byte, otherCode []byte, name string) {
 	a := newAsm()
 	ret32 := func() { a.push(0).op(MSTORE).push(32).push(0).op(RETURN) }
-	switch k := r.Intn(29); k {
+	word32 := func(v uint64) []byte { return common.BigToHash(new(big.Int).SetUint64(v)).Bytes() }
+	switch k := r.Intn(40); k {
 	case 23, 24, 25, 27, 28: // systematic offset/length matrix for every offset-taking opcode
 		name = "offset-matrix"
 		two := func(n uint) *big.Int { return new(big.Int).Lsh(big.NewInt(1), n) }
@@ -1465,8 +1517,18 @@ func c10Boundary(r *c10Rand, c *c10Case, self, other common.Address) (code []byt
 		}
 		a.push(4).op(GAS).op(kind).op(POP)
 		if r.Chance(3, 4) {
-			a.raw(byte(PUSH32)).raw(B...).push(0).op(MSTORE) // overwrite the memory the input came from
-			c.skipModel = "identity-returndata-alias"
+			// overwrite the memory the input came from (the model is compared like in any other family; the
+			// arbiter is not: go-ethereum v1.9.15 has the aliasing defect itself, see c10Tracer.idDirty)
+			switch r.Intn(4) {
+			case 0:
+				a.raw(byte(PUSH32)).raw(B...).push(0).op(MSTORE)
+			case 1:
+				a.push(uint64(B[0]) | 1).push(uint64(r.Intn(32))).op(MSTORE8)
+			case 2:
+				a.push(32).push(0).push(0).op(CODECOPY)
+			default:
+				a.push(32).push(uint64(r.Intn(4))).push(uint64(r.Intn(16))).op(CALLDATACOPY)
+			}
 		}
 		a.push(32).push(0).push(64).op(RETURNDATACOPY)
 		a.push(32).push(64).op(RETURN)
@@ -1716,6 +1778,336 @@ func c10Boundary(r *c10Rand, c *c10Case, self, other common.Address) (code []byt
 		a.push(1).push(2)
 		a.raw([]byte{0x0c, 0x1e, 0x21, 0x44, 0x46, 0x48, 0x49, 0x5c, 0x5d, 0x5e, 0x5f, 0xa5, 0xb0, 0xf6, 0xf7, 0xfb, 0xfc, 0xfe}[r.Intn(18)])
 		ret32()
+	case 29: // BLOCKHASH window: NUMBER-256 .. NUMBER-1, around both ends, heights below/around 256, 64-bit wrap
+		name = "blockhash-edge"
+		c.number = []uint64{1, 2, 255, 256, 257, 258, 300, 600, 1 << 32}[r.Intn(9)]
+		var arg *big.Int
+		switch r.Pick(8, 2, 2) {
+		case 0:
+			d := []int64{-258, -257, -256, -255, -254, -2, -1, 0, 1}[r.Intn(9)]
+			arg = new(big.Int).Add(new(big.Int).SetUint64(c.number), big.NewInt(d))
+			if arg.Sign() < 0 {
+				arg = big.NewInt(0)
+			}
+		case 1: // low 64 bits inside the window, but the value is >= 2^64
+			arg = new(big.Int).Add(new(big.Int).Lsh(big.NewInt(1), uint(64*(1+r.Intn(3)))), new(big.Int).SetUint64(c.number-1))
+		default:
+			arg = []*big.Int{big.NewInt(0), new(big.Int).SetUint64(1<<64 - 1), new(big.Int).Lsh(big.NewInt(1), 64), c10Max}[r.Intn(4)]
+		}
+		a.pushBig(arg).op(BLOCKHASH)
+		ret32()
+	case 30: // EXTCODEHASH / EXTCODESIZE / BALANCE of absent, touched-but-empty, codeless, contract, precompile, self, destructed accounts
+		name = "extcodehash-edge"
+		dead := common.BytesToAddress([]byte{0xde, 0xad, 0x05})
+		tgt := []common.Address{dead, dead, c.origin, other, self, common.BytesToAddress([]byte{4}), common.BytesToAddress([]byte{byte(1 + r.Intn(8))}),
+			common.BytesToAddress([]byte{0xc0, 0xde, 0x00, 0x07})}[r.Intn(8)]
+		touch := r.Intn(6)
+		if c10IsUnmodelledPrecompile(tgt) && touch != 4 {
+			touch = 0 // never CALL a precompile that is outside the model; querying it is fine
+		}
+		w := newAsm() // other: self-destructs to the target or just stops
+		if r.Chance(1, 2) {
+			w.pushAddr(tgt).op(SELFDESTRUCT)
+		} else {
+			w.op(STOP)
+		}
+		otherCode = w.bytes()
+		switch touch {
+		case 0: // nothing before
+		case 1: // STATICCALL touches the target
+			a.push(0).push(0).push(0).push(0).pushAddr(tgt).op(GAS, STATICCALL, POP)
+		case 2: // CALL without value
+			a.push(0).push(0).push(0).push(0).push(0).pushAddr(tgt).op(GAS, CALL, POP)
+		case 3: // CALL with value 0/1 (self balance may be 0: then it fails)
+			a.push(0).push(0).push(0).push(0).push(1).pushAddr(tgt).op(GAS, CALL, POP)
+		case 4: // other runs (and maybe self-destructs to the target, with or without balance)
+			a.push(0).push(0).push(0).push(0).push(uint64(r.Intn(2))).pushAddr(other).op(GAS, CALL, POP)
+		default: // DELEGATECALL / CALLCODE to the target
+			if r.Chance(1, 2) {
+				a.push(0).push(0).push(0).push(0).pushAddr(tgt).op(GAS, DELEGATECALL, POP)
+			} else {
+				a.push(0).push(0).push(0).push(0).push(0).pushAddr(tgt).op(GAS, CALLCODE, POP)
+			}
+		}
+		q := tgt
+		if r.Chance(1, 4) {
+			q = other
+		}
+		a.pushAddr(q).op(EXTCODEHASH).push(0).op(MSTORE)
+		a.pushAddr(q).op(EXTCODESIZE).push(32).op(MSTORE)
+		a.pushAddr(q).op(BALANCE).push(64).op(MSTORE)
+		a.push(96).push(0).op(RETURN)
+	case 31: // push-data aware jump destinations: every PUSHn at every alignment of the bitmap, targets in and around the data
+		name = "jumpdest-bitmap"
+		pre := r.Intn(18)
+		n := 1 + r.Intn(32)
+		body := []byte{}
+		for i := 0; i < pre; i++ {
+			body = append(body, byte(JUMPDEST))
+		}
+		pl := 4 // PUSH2 hi lo JUMP
+		cond := r.Chance(1, 4)
+		if cond {
+			pl = 6 // PUSH1 1 PUSH2 hi lo JUMPI
+		}
+		pushAt := pl + len(body)
+		body = append(body, byte(PUSH1)+byte(n-1))
+		for i := 0; i < n; i++ {
+			body = append(body, byte(JUMPDEST))
+		}
+		after := pl + len(body)
+		body = append(body, byte(JUMPDEST), byte(PUSH1), 1, byte(PUSH1), 0, byte(MSTORE), byte(PUSH1), 32, byte(PUSH1), 0, byte(RETURN))
+		if r.Chance(1, 2) { // code ends inside the data of a push
+			m := 1 + r.Intn(32)
+			body = append(body, byte(JUMPDEST), byte(PUSH1)+byte(m-1))
+			for i, k := 0, r.Intn(m+1); i < k; i++ {
+				body = append(body, byte(JUMPDEST))
+			}
+		}
+		total := pl + len(body)
+		var tgt int
+		switch r.Pick(6, 2, 2, 2, 3) {
+		case 0:
+			tgt = pushAt + 1 + r.Intn(n) // inside the data
+		case 1:
+			tgt = after // the real JUMPDEST behind the data
+		case 2:
+			tgt = pushAt - r.Intn(2) // the PUSH opcode itself / the byte before it
+		case 3:
+			tgt = pl + r.Intn(total-pl)
+		default:
+			tgt = total - 2 + r.Intn(4) // last bytes, len(code), len(code)+1
+		}
+		if cond {
+			a.push(1).raw(byte(PUSH2), byte(tgt>>8), byte(tgt)).op(JUMPI)
+		} else {
+			a.raw(byte(PUSH2), byte(tgt>>8), byte(tgt)).op(JUMP)
+		}
+		a.raw(body...)
+	case 32: // jump-destination analysis is per CODE: caller and callee differ exactly at the jump target
+		name = "jumpdest-per-code"
+		P := 3 + r.Intn(30)
+		kind := []OpCode{CALL, DELEGATECALL, CALLCODE, STATICCALL}[r.Intn(4)]
+		callOther := func(x *c10Asm, slot uint64) {
+			x.push(32).push(0).push(0).push(0)
+			if kind == CALL || kind == CALLCODE {
+				x.push(0)
+			}
+			x.pushAddr(other).push(60000).op(kind) // a failing callee burns only what it was handed
+			x.push(0).op(MLOAD).push(2).op(MUL).op(ADD).push(slot).op(SSTORE) // flag + 2*returned word
+			x.push(0).push(0).op(MSTORE)
+		}
+		good := func() []byte { // PUSH1 P JUMP, JUMPDESTs up to P, then return 1
+			x := newAsm()
+			x.push(uint64(P)).op(JUMP)
+			for len(x.buf) <= P {
+				x.op(JUMPDEST)
+			}
+			x.push(1).push(0).op(MSTORE).push(32).push(0).op(RETURN)
+			return x.bytes()
+		}
+		if r.Chance(1, 2) {
+			// self: position P is a JUMPDEST (and is jumped to, so the analysis of self is cached first);
+			// other: the same position is a 0x5b inside PUSH32 data -> its jump must fail
+			a.push(uint64(P)).op(JUMP)
+			for len(a.buf) < P {
+				a.op(JUMPDEST)
+			}
+			a.op(JUMPDEST)
+			w := newAsm()
+			w.push(uint64(P)).op(JUMP).raw(byte(PUSH32))
+			for i := 0; i < 32; i++ {
+				w.raw(byte(JUMPDEST))
+			}
+			w.push(1).push(0).op(MSTORE).push(32).push(0).op(RETURN)
+			otherCode = w.bytes()
+		} else {
+			// self: bytes 1..32 are push data (0x5b), it jumps elsewhere first; other: position P is a real JUMPDEST
+			a.raw(byte(PUSH32))
+			for i := 0; i < 32; i++ {
+				a.raw(byte(JUMPDEST))
+			}
+			a.op(POP).push(38).op(JUMP).op(STOP).op(JUMPDEST) // 33 POP, 34-35 PUSH1 38, 36 JUMP, 37 STOP, 38 JUMPDEST
+			otherCode = good()
+		}
+		callOther(a, 0)
+		callOther(a, 1) // second call: analysis taken from the cache
+		a.push(1).push(2).op(SSTORE).op(STOP)
+	case 33: // RETURNDATA after an operation that must replace (or clear) it
+		name = "returndata-after-op"
+		c.gas = 5000000
+		w := newAsm()
+		w.raw(byte(PUSH32)).raw(r.Bytes(32)...).push(0).op(MSTORE).push(32).push(0).op(RETURN)
+		otherCode = w.bytes()
+		a.push(0).push(0).push(0).push(0).push(0).pushAddr(other).op(GAS, CALL, POP) // RETURNDATA = 32 bytes
+		mkCreate := func(init []byte, value uint64, salt int) {
+			c10StoreBytes(a, init)
+			if salt >= 0 {
+				a.push(uint64(salt))
+			}
+			a.push(uint64(len(init))).push(0).push(value)
+			if salt >= 0 {
+				a.op(CREATE2)
+			} else {
+				a.op(CREATE)
+			}
+		}
+		rt := c10InitCode([]byte{byte(PUSH1), 1, byte(PUSH1), 0, byte(SSTORE), byte(STOP), 1}, nil) // 7 bytes of runtime code
+		rv := newAsm()
+		rv.push(0x0102030405060708).push(0).op(MSTORE).push(uint64(r.Intn(40))).push(uint64(r.Intn(32))).op(REVERT)
+		salt := -1
+		if r.Chance(1, 2) {
+			salt = r.Intn(3)
+		}
+		switch r.Intn(11) {
+		case 0: // call to an absent account
+			a.push(0).push(0).push(0).push(0).push(0).pushAddr(common.BytesToAddress([]byte{0xde, 0xad, 0x06})).op(GAS, CALL)
+		case 1: // value call that cannot be paid
+			a.push(0).push(0).push(0).push(0).pushBig(big.NewInt(5000000)).pushAddr(other).op(GAS, CALL)
+		case 2: // call to an account without code
+			a.push(0).push(0).push(0).push(0).push(0).pushAddr(c.origin).op(GAS, []OpCode{CALL, CALLCODE}[r.Intn(2)])
+		case 3: // successful creation: RETURNDATA must be empty, not the deployed code
+			mkCreate(rt, 0, salt)
+		case 4: // reverting constructor: RETURNDATA is the revert data
+			mkCreate(rv.bytes(), 0, salt)
+		case 5: // failing constructor
+			mkCreate([]byte{0xfe}, 0, salt)
+		case 6: // creation that cannot be paid
+			mkCreate(rt, 5000000, salt)
+		case 7: // the same CREATE2 twice: the second one collides
+			mkCreate(rt, 0, 1)
+			a.op(POP)
+			mkCreate(rt, 0, 1)
+		case 8: // identity precompile
+			a.push(0).push(0).push(uint64(r.Intn(3) * 5)).push(0).push(4).op(GAS, []OpCode{STATICCALL, DELEGATECALL}[r.Intn(2)])
+		case 9: // callee that reverts with data
+			a.push(0).push(0).push(0).push(0)
+			a.pushAddr(common.BytesToAddress([]byte{0xc0, 0xde, 0x00, 0x02})).op(GAS, STATICCALL)
+		default: // empty init code
+			mkCreate(nil, 0, salt)
+		}
+		a.op(ISZERO, ISZERO).push(0).op(MSTORE)
+		a.op(RETURNDATASIZE).push(32).op(MSTORE)
+		a.op(RETURNDATASIZE).push(0).push(64).op(RETURNDATACOPY)
+		a.push(128).push(0).op(RETURN)
+	case 34: // identity precompile with exactly / one less / one more than the gas it needs
+		name = "identity-gas-exact"
+		size := []int{0, 1, 31, 32, 33, 64, 65}[r.Intn(7)]
+		delta := []int{-1, 0, 0, 1}[r.Intn(4)]
+		cost := 15 + 3*((size+31)/32)
+		data := r.Bytes(96)
+		c10StoreBytes(a, data)
+		a.push(0).push(0).push(uint64(size)).push(0)
+		kind := []OpCode{CALL, STATICCALL, DELEGATECALL, CALLCODE}[r.Intn(4)]
+		if kind == CALL || kind == CALLCODE {
+			a.push(0)
+		}
+		a.push(4).push(uint64(cost + delta)).op(kind)
+		a.push(96).op(MSTORE)
+		a.op(RETURNDATASIZE).push(128).op(MSTORE)
+		a.op(RETURNDATASIZE).push(0).push(160).op(RETURNDATACOPY)
+		a.push(128).push(96).op(RETURN)
+		exp := make([]byte, 128)
+		if delta >= 0 {
+			exp[31] = 1
+			exp[63] = byte(size)
+			copy(exp[64:], data[:size])
+		}
+		c.specRet, c.specName = exp, "kvm-identity-gas"
+		c.specWhat = fmt.Sprintf("a call to the identity precompile 0x04 with %d input bytes and %d gas (needs %d) must %s", size, cost+delta, cost, map[bool]string{true: "succeed and return its input", false: "fail with empty return data"}[delta >= 0])
+	case 35: // creation at an address that already has a nonce / code / only a balance
+		name = "create-collision"
+		c.gas = 20000000 // a collision burns the 63/64 handed to the creation
+		rt := c10InitCode([]byte{byte(PUSH1), 1, byte(PUSH1), 0, byte(SSTORE), byte(STOP)}, nil)
+		two := r.Chance(1, 2)
+		salt := common.BigToHash(big.NewInt(int64(r.Intn(3))))
+		var addr common.Address
+		if two {
+			addr = crypto.CreateAddress2(self, salt, crypto.Keccak256(rt))
+		} else {
+			addr = crypto.CreateAddress(self, 1) // the pre-state nonce of every generated contract is 1
+		}
+		x := c10Acct{addr: addr, bal: big.NewInt(0)}
+		switch r.Intn(6) {
+		case 0:
+			x.nonce = 1
+		case 1:
+			x.code = []byte{byte(STOP)}
+		case 2:
+			x.bal = big.NewInt(int64(1 + r.Intn(9)))
+		case 3:
+			x.nonce, x.code, x.bal = 5, []byte{byte(PUSH1), 0, byte(POP)}, big.NewInt(3)
+		case 4:
+			x.nonce, x.bal = uint64(1+r.Intn(3)), big.NewInt(2)
+		default:
+			x.addr = common.BytesToAddress([]byte{0xde, 0xad, 0x07}) // control: nothing at the address
+			x.bal = big.NewInt(1)
+		}
+		c.extra = append(c.extra, x)
+		c10StoreBytes(a, rt)
+		if two {
+			a.pushBig(new(big.Int).SetBytes(salt[:]))
+		}
+		a.push(uint64(len(rt))).push(0).push(uint64(r.Intn(2) * 3))
+		if two {
+			a.op(CREATE2)
+		} else {
+			a.op(CREATE)
+		}
+		a.push(0).op(SSTORE)
+		a.pushAddr(addr).op(EXTCODESIZE).push(1).op(SSTORE)
+		a.pushAddr(addr).op(BALANCE).push(2).op(SSTORE)
+		a.push(0).push(0).push(0).push(0).push(0).pushAddr(addr).op(GAS, CALL).push(3).op(SSTORE)
+		a.op(STOP)
+	case 36, 37: // the depth limit for EVERY frame-creating operation: recursion to the limit, then one operation per frame on the way back
+		name = "depth-boundary"
+		c.gas = 1000000000000000 + uint64(r.Intn(1000))
+		kind := []OpCode{CALL, DELEGATECALL, STATICCALL, CALLCODE}[r.Intn(4)]
+		xs := []string{"create", "create2", "call-code", "call-nocode", "call-absent", "staticcall", "delegatecall", "callcode", "identity"}
+		xop := xs[r.Intn(len(xs))]
+		if kind == STATICCALL && (xop == "create" || xop == "create2") {
+			xop = "staticcall"
+		}
+		w := newAsm()
+		w.op(STOP)
+		otherCode = w.bytes()
+		// recursive call first; the callee's counter lands in mem[0..32)
+		a.push(32).push(0).push(0).push(0)
+		if kind == CALL || kind == CALLCODE {
+			a.push(0)
+		}
+		a.op(ADDRESS, GAS).op(kind).op(POP)
+		callX := func(k OpCode, to common.Address) {
+			a.push(0).push(0).push(0).push(0)
+			if k == CALL || k == CALLCODE {
+				a.push(0)
+			}
+			a.pushAddr(to).op(GAS).op(k)
+		}
+		switch xop {
+		case "create":
+			a.push(0).push(0).push(0).op(CREATE).op(ISZERO, ISZERO)
+		case "create2":
+			a.push(0).op(MLOAD).push(0).push(0).push(0).op(CREATE2).op(ISZERO, ISZERO) // salt = the callee's counter: differs per frame
+		case "call-code":
+			callX(CALL, other)
+		case "call-nocode":
+			callX(CALL, c.origin)
+		case "call-absent":
+			callX(CALL, common.BytesToAddress([]byte{0xde, 0xad, 0x08}))
+		case "staticcall":
+			callX(STATICCALL, other)
+		case "delegatecall":
+			callX(DELEGATECALL, other)
+		case "callcode":
+			callX(CALLCODE, other)
+		default:
+			callX(STATICCALL, common.BytesToAddress([]byte{4}))
+		}
+		a.push(0).op(MLOAD).op(ADD)
+		ret32()
+		c.specRet, c.specName = word32(1024), "kvm-depth-limit"
+		c.specWhat = "frames 1..1024 may start one more call/creation (" + xop + "), frame 1025 may not: the count returned through the " + kind.String() + " recursion must be 1024"
 	default: // value transfer to non-existent / existing / self
 		name = "value-transfer"
 		tgt := []common.Address{other, self, common.BytesToAddress([]byte{0xde, 0xad, 0x00}), common.BytesToAddress([]byte{0xaa, 0xaa, 0x01})}[r.Intn(4)]
@@ -1759,7 +2151,7 @@ func c10GenCase(r *c10Rand, o *c10Out) *c10Case {
 		addrs[i] = c10Addr(i)
 	}
 	codes := make([][]byte, nC)
-	kind := r.Pick(12, 18, 45, 25)
+	kind := r.Pick(12, 18, 42, 25, 4)
 	switch kind {
 	case 0:
 		c.kind = "random-bytes"
@@ -1771,6 +2163,13 @@ func c10GenCase(r *c10Rand, o *c10Out) *c10Case {
 		c.kind = "grammar"
 		g := &c10Gen{r: r, callees: addrs, self: addrs[0], o: o}
 		codes[0] = g.contract(2, 6)
+	case 4:
+		// programs whose outcome cannot depend on the gas supplied (no GAS, no calls, no creations): run once with
+		// ample gas, then give exactly what was used, one less, or a little more
+		c.kind = "exact-gas"
+		g := &c10Gen{r: r, callees: addrs, self: addrs[0], o: o, noCalls: true}
+		codes[0] = g.contract(2, 5)
+		c.exactOn = true
 	default:
 		if nC < 2 {
 			nC = 2
@@ -1818,8 +2217,22 @@ func c10GenCase(r *c10Rand, o *c10Out) *c10Case {
 		a.st = st
 		c.accts = append(c.accts, a)
 	}
+	c.accts = append(c.accts, c.extra...)
 	c.accts = append(c.accts, c10Acct{addr: c.origin, nonce: uint64(r.Intn(3)), bal: originBal})
-	if r.Chance(1, 10) && !strings.HasPrefix(c.kind, "boundary") {
+	if c.exactOn {
+		c.exactOn = false
+		c.gas = 3000000
+		pre, _, _ := c10RunKVM(c, false, map[common.Address]bool{}, nil)
+		if pre.panic == "" && !pre.timeout && (pre.class == "ok" || pre.class == "revert") && pre.gasLeft <= c.gas {
+			used := c.gas - pre.gasLeft
+			c.exactDelta = []int64{-1, 0, 0, 1, int64(2 + r.Intn(50))}[r.Intn(5)]
+			if int64(used)+c.exactDelta >= 0 {
+				c.exactOn, c.exactClass, c.exactRet = true, pre.class, pre.ret
+				c.gas = uint64(int64(used) + c.exactDelta)
+			}
+		}
+	}
+	if r.Chance(1, 10) && !strings.HasPrefix(c.kind, "boundary") && c.kind != "exact-gas" {
 		// contract-creation entry: the target's code is used as init code
 		c.create = true
 		c.kind += "+create-entry"
@@ -1895,6 +2308,12 @@ func TestVerifC10(t *testing.T) {
 		"oracles: no panic, < 2 s of CPU per program, same result with and without tracer, agreement with go-ethereum v1.9.15 core/vm (Istanbul) on class/return data/state/logs whenever no frame ran out of gas and no fork-specific opcode (GAS value, DIFFICULTY, CHAINID pre-Galaxias, precompiles' gas) was observed"
 	root := c10NewRand(*c10Seed)
 	opsCovered := map[byte]int{}
+	// per-case family and outcome, for reading a run by hand (not compared with anything)
+	var kindsLog *bufio.Writer
+	if f, err := os.Create(filepath.Join(*c10Dir, "kinds.txt")); err == nil {
+		kindsLog = bufio.NewWriter(f)
+		defer func() { kindsLog.Flush(); f.Close() }()
+	}
 	hangs := 0
 	for i := 0; i < *c10N; i++ {
 		if *c10Only >= 0 && *c10Only != i {
@@ -1924,8 +2343,27 @@ func TestVerifC10(t *testing.T) {
 		if res.timeout || dt > 2*time.Second {
 			o.Fail(0, "kvm-hang", fmt.Sprintf("kind=%s used %v of CPU (limit 2s)", c.kind, dt))
 		}
-		if c.specRet != nil && res.panic == "" && res.class == "ok" && !bytes.Equal(res.ret, c.specRet) {
-			o.Fail(0, "kvm-identity-returndata-aliased", fmt.Sprintf("kind=%s RETURNDATA after a call to the identity precompile 0x04 changed when the caller overwrote its own memory: got %x, EVM specification %x (dataCopy.Run returns its input slice uncopied)", c.kind, res.ret, c.specRet))
+		if c.specRet != nil && c.specName != "" && res.panic == "" && res.class == "ok" && !bytes.Equal(res.ret, c.specRet) {
+			o.Fail(0, c.specName, fmt.Sprintf("kind=%s %s: got %x, expected %x", c.kind, c.specWhat, res.ret, c.specRet))
+		}
+		if c.exactOn && res.panic == "" && !res.timeout {
+			o.Count(fmt.Sprintf("exact-gas:delta%+d", func() int64 {
+				if c.exactDelta > 1 {
+					return 2
+				}
+				return c.exactDelta
+			}()))
+			if c.exactDelta >= 0 && (res.class != c.exactClass || res.gasLeft != uint64(c.exactDelta) || !bytes.Equal(res.ret, c.exactRet)) {
+				o.Fail(0, "kvm-exact-gas", fmt.Sprintf("kind=%s with 3000000 gas the program ended %s using %d; given %d it must end the same way with %d left, got class=%s gasLeft=%d ret=%x (expected ret=%x)",
+					c.kind, c.exactClass, int64(c.gas)-c.exactDelta, c.gas, c.exactDelta, res.class, res.gasLeft, res.ret, c.exactRet))
+			}
+			if c.exactDelta < 0 && (res.class != "oog" || res.gasLeft != 0) {
+				o.Fail(0, "kvm-exact-gas", fmt.Sprintf("kind=%s with 3000000 gas the program ended %s using %d; given %d it must run out of gas, got class=%s gasLeft=%d",
+					c.kind, c.exactClass, int64(c.gas)-c.exactDelta, c.gas, res.class, res.gasLeft))
+			}
+		}
+		if c.specRet != nil && c.specName == "" && res.panic == "" && res.class == "ok" && !bytes.Equal(res.ret, c.specRet) {
+			o.Fail(0, "kvm-identity-returndata-aliased", fmt.Sprintf("kind=%s RETURNDATA after a call to the identity precompile 0x04 changed when the caller overwrote its own memory: got %x, EVM specification %x (dataCopy.Run must return a copy of its input)", c.kind, res.ret, c.specRet))
 		}
 		if res.gasCreated != "" {
 			o.Fail(0, "kvm-callee-gas-exceeds-request", fmt.Sprintf("kind=%s %s", c.kind, res.gasCreated))
@@ -1962,6 +2400,8 @@ func TestVerifC10(t *testing.T) {
 			skip = "gas-value-observed"
 		case res.foreignOp || gres.foreignOp:
 			skip = "fork-specific-opcode"
+		case res.gethAlias:
+			skip = "arbiter-aliases-identity-returndata"
 		case gres.timeout:
 			skip = "arbiter-timeout"
 		}
@@ -2020,6 +2460,9 @@ func TestVerifC10(t *testing.T) {
 			opsCovered[op] += n
 		}
 		o.Mark(fmt.Sprintf("%s/%s/%d/%d", c.kind, res.class, len(res.accts), len(res.logs)))
+		if kindsLog != nil {
+			fmt.Fprintf(kindsLog, "%d %s %s %d %s\n", i, c.kind, res.class, res.gasLeft, c10Trunc(c10Hex(res.ret)))
+		}
 	}
 	names := make([]string, 0, len(opsCovered))
 	for op := range opsCovered {
